@@ -328,7 +328,9 @@ with MsSqlImpl.impl_store.impl_manager as impl:
 
     @impl(ops.ceil)
     def _ceil(x):
-        return sqa.func.ceiling(x)
+        if isinstance(x.type, sqa.Integer):
+            x = sqa.cast(x, sqa.Double())
+        return sqa.func.ceiling(x, type_=x.type)
 
     @impl(ops.str_to_datetime)
     def _str_to_datetime(x):
